@@ -242,7 +242,9 @@ class Machine(object):
         start = self.desc.get('start', 'writer')
         if start.startswith('external'):
             # the file was produced by somebody else's tool; the object only reads it
-            text = M.render_external(self.desc['tables'], self.desc['hdr'], self.desc.get('style', 0))
+            text = M.render_external(self.desc['tables'], self.desc['hdr'], self.desc.get('style', 0),
+                                     eol=self.desc.get('eol', '\n'),
+                                     final_newline=self.desc.get('final_newline', True))
             with open(self.path('f0.par'), 'wb') as f:
                 f.write(text)
             mdl.files['f0.par'] = text
@@ -294,18 +296,31 @@ class Machine(object):
         elif op == 'ext_delete':
             if mdl.bound in mdl.files:
                 os.remove(self.path(mdl.bound))
-                del mdl.files[mdl.bound]
+                mdl.deleted[mdl.bound] = mdl.files.pop(mdl.bound)
                 outcome = 'ok'
+        elif op == 'ext_restore':
+            # the external actor puts the deleted file back, byte for byte (restore from backup)
+            if mdl.bound not in mdl.files and mdl.bound in mdl.deleted:
+                with open(self.path(mdl.bound), 'wb') as f:
+                    f.write(mdl.deleted[mdl.bound])
+                mdl.files[mdl.bound] = mdl.deleted[mdl.bound]
+                outcome = 'ok'
+                if self.recovery == 1:
+                    self.recovery = 3
         elif op == 'ext_create':
-            if st['name'] not in mdl.files and st['name'] != mdl.bound:
-                content = {'garbage': GARBAGE, 'yanny': OTHER_YANNY, 'empty': b''}[st['content']]
-                with open(self.path(st['name']), 'wb') as f:
-                    f.write(content)
-                mdl.files[st['name']] = content
+            if not mdl.exists(st['name']) and st['name'] != mdl.bound:
+                if st['content'] == 'dir':
+                    os.mkdir(self.path(st['name']))
+                    mdl.files[st['name'] + os.sep] = b''
+                else:
+                    content = {'garbage': GARBAGE, 'yanny': OTHER_YANNY, 'empty': b''}[st['content']]
+                    with open(self.path(st['name']), 'wb') as f:
+                        f.write(content)
+                    mdl.files[st['name']] = content
                 outcome = 'ok'
         elif op == 'wnd_over':
             name = mdl.bound if st.get('target') == 'bound' else st.get('target')
-            if name in mdl.files:
+            if mdl.exists(name):
                 tabs, names, hdr = self._initial_args()
                 outcome = self._call(lambda: self.ymod.write_ndarray_to_yanny(
                     self.path(name), tabs, structnames=names, enums=self._enums(), hdr=hdr), 'raise')
@@ -331,7 +346,7 @@ class Machine(object):
     def _write(self, name, explicit, comments=None):
         mdl = self.model
         target = self.path(name)
-        exists = name in mdl.files
+        exists = mdl.exists(name)
         kw = {} if comments is None else {'comments': comments}
         fn = (lambda: self.obj.write(target, **kw)) if explicit else (lambda: self.obj.write(**kw))
         if comments is not None:
@@ -444,6 +459,8 @@ class Machine(object):
             p['append_after_clock_jumped_back'] += 1
         if self.recovery == 2:
             p['append_after_missing_refusal_and_recreate'] += 1
+        if self.recovery == 3:
+            p['append_after_missing_refusal_and_external_restore'] += 1
         return out, extra
 
 
